@@ -301,6 +301,13 @@ func (h *handler) startReceiving(ctx context.Context) {
 				return
 			}
 
+			// Pose and component updates held back until the end of the frame
+			// were sent before this join request: they belong to the session
+			// the participant is still in and are handled before the join.
+			if msg.Type == hagallpb.MsgType_MSG_TYPE_PARTICIPANT_JOIN_REQUEST {
+				h.dispatcher.HandleFrame()
+			}
+
 			if err = h.dispatcher.Dispatch(ctx, msg); err != nil {
 				h.disconnect(errors.New("dispatching message failed").Wrap(err))
 				return
